@@ -17,3 +17,19 @@ LOCATION_TABLE = {
     'long': {'codes': (14, 14), 'varints': ['svarint(line_delta)', 'end_line - start_line', 'start_column + 1', 'end_column + 1']},
     'varint_chunk_bits': 6,
 }
+
+# Python language reference 6.17 "Operator precedence" (lowest to highest binding), binary/unary operators that can
+# occur in default-value expressions.  Names as Cython's nodes spell them ('not_in', 'is_not').
+# Associativity: all binary operators group left to right, except ** (right to left); comparisons chain (a < b < c is
+# not (a < b) < c), so neither operand of a comparison may be an unparenthesised comparison.
+PY_BINOP_LEVELS = [
+    ['or'], ['and'],
+    # 'not' (unary) sits here
+    ['in', 'not_in', 'is', 'is_not', '<', '<=', '>', '>=', '!=', '=='],
+    ['|'], ['^'], ['&'], ['<<', '>>'], ['+', '-'], ['*', '@', '/', '//', '%'],
+    # unary + - ~ sit here
+    ['**'],
+]
+PY_UNOP_LEVEL = {'not': ('and', 'in'), '+': ('*', '**'), '-': ('*', '**'), '~': ('*', '**')}   # strictly between these binary levels
+PY_RIGHT_ASSOC = {'**'}
+PY_NON_ASSOC = {'in', 'not_in', 'is', 'is_not', '<', '<=', '>', '>=', '!=', '=='}
